@@ -13,8 +13,14 @@ def body(run):
     run.build(extra_targets=['theories/Corr/CheckC01.v'])
     rng = run.rng('kernel')
     cases, metas, dist = [], [], {}
-    n = run.scale(300, 6000)
+    n = run.scale(280, 6000)
     todo = [ik.gen_case(rng, maxdim=run.scale(10, 24)) for _ in range(n)]
+    # kernel windows with more than 255 (and, thorough, more than 65535 is out of reach) jointly valid pixels
+    bigs = [((17, 17), (17, 18)), ((3, 91), (4, 95)), ((19, 15), (20, 17))] + ([((25, 11), (27, 13)), ((1, 301), (2, 305))] if run.thorough else [])
+    for bi, (ks, shp) in enumerate(bigs):
+        for model in (['gain-offset', 'gain'] if not run.thorough else ik.MODELS):
+            if bi == 0 or model == 'gain-offset' or run.thorough:
+                todo.append(ik.gen_big_kernel_case(rng, model, ks, shp))
     if run.thorough:   # exhaustive: every source mask of a 3 x 3 block x kernels {1,3}^2 x 3 models
         for bits in range(512):
             m = np.array([(bits >> k) & 1 for k in range(9)], bool).reshape(3, 3)
@@ -50,6 +56,8 @@ def body(run):
         if v is not None:
             run.add_violation(v['what'], desc, expected=v.get('expected'), observed=v,
                               signature=dict(kind='kernel-definition', model=c['model']))
+        if c['mask_kind'] == 'big-kernel' and not run.thorough and not (c['kshape'] == (17, 17) and c['model'] == 'gain-offset'):
+            continue      # big windows are expensive inside Coq: one per quick run, the rest go to the explicit-loop oracle only
         cases.append(ik.encode(c['model'], c['kshape'], c['thresh'], c['src'], c['ref'], out))
         metas.append(desc)
     failing, nt = run.corr('fit', 'Corr.CheckC01', cases, shard=60)
